@@ -66,16 +66,16 @@ CHECKS["C27"] = ("in-process property-based testing + exhaustive boundary consta
 CHECKS["C16"] = ("property-based testing at two entry points: rapidcheck API harness (exact mpq parser as oracle, ASan/UBSan) and Hypothesis executable round trip through get-value/get-model",
                  "Generated literal spellings (zeros everywhere, huge, junk) must denote their exact rational value through mkConst and through the SMT-LIB front end, print back exactly, or be rejected. Exploration only.",
                  "own exact literal parser; our reader of printed values", "DESIGN.md §4 C16")
-CHECKS["C28"] = ("in-process stateful property-based testing (rapidcheck sequences of constructor calls against a map model of identities)",
+CHECKS["C28"] = ("in-process stateful property-based testing (rapidcheck sequences of constructor calls against a map model of identities; one long-lived QF_AUFLIRA store and a fresh QF_LIA/QF_LRA store per case with generated creation order)",
                  "Generated sequences of term constructions with re-construction and permuted commutative arguments; identity, printing injectivity and subterm-before-term order are checked after every sequence. Exploration only.",
                  "own model of (constructor, arguments) -> identity", "DESIGN.md §4 C28")
-CHECKS["C24"] = ("in-process property-based testing with real threads under ThreadSanitizer and ASan/UBSan (rapidcheck-drawn instance sets and start delays)",
+CHECKS["C24"] = ("in-process property-based testing with real threads under ThreadSanitizer and ASan/UBSan (rapidcheck-drawn instance sets and start delays); concurrent answers and the printed normal forms of all built constraints are compared with the solo run",
                  "Weak by nature: interleavings are sampled by the OS scheduler, not enumerated. Concurrent answers must equal solo answers and no sanitizer may report. Exploration only.",
                  "TSan happens-before detection on the executions that occur; solo run as reference", "DESIGN.md §4 C24, §7")
 CHECKS["C25"] = ("in-process property-based testing with a stopper thread, at generated delays and at generated consistent points of the search (harness-owned schedule through the notifyConsistency hook), under ThreadSanitizer and ASan/UBSan",
                  "Two modes: the stop request is placed by a sampled wall-clock delay (landing point measured), or issued while the search waits at its K-th consistent point (K generated). Result must be unknown or the solo answer, no sanitizer report. Other landing points inside propagation or theory checks are only sampled. Exploration only.",
                  "TSan happens-before detection; solo run as reference", "DESIGN.md §4 C25, §7")
-CHECKS["C18"] = ("grammar-based fault injection (Hypothesis) and token-level mutation of the regression corpus, run on the ASan/UBSan executable as file and pipe input",
+CHECKS["C18"] = ("grammar-based fault injection (Hypothesis) and token-level mutation of the regression corpus, run on the ASan/UBSan executable as file and pipe input; metamorphic renaming of '%' to '$' in symbol names for the diagnostics",
                  "Generated near-valid scripts and mutated regression files; any crash, abort, uncaught exception, sanitizer report, unexpected exit status, unsignalled error or hang without check-sat is a violation (known crash sites are keyed by fingerprint). The in-process libFuzzer target of the design (fz_interpret) is not built. Exploration only.",
                  "sanitizer build; our S-expression reader decides 'unbalanced'", "DESIGN.md §4 C18")
 CHECKS["C21"] = ("model-based (stateful) property-based testing: generated command histories against a Python scope model",
